@@ -85,7 +85,8 @@ pub fn mixed_machine() -> Machine {
     let a = DST;
     let cfg = Cfg {
         addr: a,
-        msg_types: (0..20).map(|i| 0x40 + i as u8).collect(),
+        // 20 types (responses longer than 32 bytes), the vendor-defined and control types among them
+        msg_types: [0x7Eu8, 0x7F, 0x05, 0x00].into_iter().chain((4..20).map(|i| 0x40 + i as u8)).collect(),
         vendors: vec![(0, 0x1414, 4), (1, 0xDEADBEEF, 9), (0, 0x8086, 0), (1, 0x0000_1414, 4)],
     };
     let rq = |cmd: u8, d: &[u8]| forge_request(SRC, a, 0, false, cmd, d);
@@ -142,8 +143,63 @@ pub fn mixed_machine() -> Machine {
         enc(RespVersion { cc: 0 }, SRC),
         enc(RespMsgTypes { cc: 0, types: vec![0xBB; 31] }, SRC),
         enc(RespUuid { cc: 0, uuid: [0xCC; 16] }, SRC),
+        // a valid packet followed by trailing bytes (a padded read): the final byte is not its PEC
+        Event::Process([&good_geid[..], &[0x00, 0x00, 0x00][..]].concat()),
+        Event::Decode([&good_geid[..], &[0x5A, 0x5A, 0x5A][..]].concat()),
+        // our own requests to the peer at 0x34 and the peer's answers, carrying data that differ
+        // from our own state (anything "learned" from a response must not leak into our answers)
+        enc(ReqGetVersion { q: 0 }, 0x34),
+        Event::Process(forge_response(0x34, a, 0, 0x04, 0, &[0x01, 0xF1, 0xF2, 0xF0, 0x00])),
+        enc(ReqGetVendor { sel: 0 }, 0x34),
+        Event::Process(forge_response(0x34, a, 0, 0x06, 0, &[0x01, 0x00, 0xAB, 0xCD, 0x00, 0x07])),
+        enc(ReqGetUuid, 0x34),
+        Event::Process(forge_response(0x34, a, 0, 0x03, 0, &[0xEE; 16])),
+        enc(ReqGetMsgTypes, 0x34),
+        Event::Process(forge_response(0x34, a, 0, 0x05, 0, &[0x02, 0x01, 0x02])),
     ];
     Machine { cfg, init: vec![], alphabet }
+}
+
+/// The complete small-request space for PAIRSEQ: the no-data commands from
+/// every source EID with two instance ids, every version query byte, every
+/// selector below n, every Set Endpoint ID (Set/Force/Set-Discovered x EID).
+pub fn request_space(cfg: &Cfg) -> Vec<Vec<u8>> {
+    let a = cfg.addr;
+    let mut v = vec![];
+    for cmd in [0x02u8, 0x03, 0x05] {
+        for src in 0..=255u8 {
+            for iid in [0u8, 7] {
+                let mut p = forge_request(SRC, a, iid, false, cmd, &[]);
+                p[6] = src;
+                fix_pec(&mut p);
+                v.push(p);
+            }
+        }
+    }
+    for q in 0..=255u8 {
+        v.push(forge_request(SRC, a, 0, false, 0x04, &[q]));
+    }
+    for s in 0..cfg.vendors.len() as u8 {
+        v.push(forge_request(SRC, a, 0, false, 0x06, &[s]));
+    }
+    for op in [0u8, 1, 3] {
+        for e in 0..=255u8 {
+            v.push(forge_request(SRC, a, 0, false, 0x01, &[op, e]));
+        }
+    }
+    v
+}
+
+/// PAIRSEQ for one property: (decoded | processed) x processed over the request space.
+pub fn pairseq_requests(run: &mut Run, prop: &'static str, cfg: &Cfg, filter: &Filter) {
+    let r = request_space(cfg);
+    let second: Vec<Event> = r.iter().map(|p| Event::Process(p.clone())).collect();
+    let first: Vec<Event> = r.iter().map(|p| Event::Decode(p.clone())).chain(second.iter().cloned()).collect();
+    pairseq(run, prop, "(every request decoded or processed) then (every request processed)", cfg, &first, &second, filter);
+}
+
+fn pair_cfg() -> Cfg {
+    Cfg { addr: DST, msg_types: vec![0x7E, 0x05], vendors: vec![(0, 0x1414, 4), (1, 0xDEADBEEF, 9)] }
 }
 
 fn c13_filter(d: &Diff, _h: &[Event]) -> bool {
@@ -191,7 +247,10 @@ pub fn run_c13(run: &mut Run) {
     }
     c13_accessor_values(run);
     c13_deviation_inputs(run);
+    c13_assignment_pairs_iid(run);
+    c13_smbus_header_collisions(run);
     stateless(run, "C13", "MIXSEQ (every kind of call on one context)", &mixed_machine(), depth, &c13_filter);
+    pairseq_requests(run, "C13", &pair_cfg(), &c13_filter);
     // full-domain breadth: every ordered pair of assignments over all EIDs 0x01..=0xFE
     let n1 = 254u64 * 2;
     run.sweep_chunked("every sequence of length <= 2 over Set EID(Set|Force, e), all e in 0x01..=0xFE", n1 + n1 * n1, |acc, lo, hi| {
@@ -277,6 +336,84 @@ fn c13_cheap(spec: &CtxSpec, owned: &Owned, bytes: &[u8]) -> (Option<String>, bo
         return (Some(format!("after process_packet({}) the EID cells are {:#04x}/{:#04x}, expected {:#04x}/{:#04x}", hex(bytes), a, b, r.eid_req, r.eid_resp)), true);
     }
     (None, true)
+}
+
+/// Two consecutive assignments over (operation x instance id x EID) from one
+/// requester: whatever identifies a "retry" (instance id, PEC, ...) must never
+/// make a different assignment look like one.  Cheap oracle: cells and the EID
+/// byte of the second response.
+fn c13_assignment_pairs_iid(run: &mut Run) {
+    let iids: Vec<u8> = if run.tier.thorough() { (0..32).collect() } else { vec![0, 1, 2, 3, 7, 15, 16, 31] };
+    let ni = iids.len() as u64;
+    let n1 = 2 * ni * 254;
+    let cfg = Cfg::simple(DST);
+    run.sweep_chunked(&format!("every ordered pair of assignments over 2 operations x {} instance ids x EIDs 0x01..=0xFE (cells and answered EID)", ni), n1 * n1, |acc, lo, hi| {
+        use libmctp::mctp_traits::SMBusMCTPRequestResponse;
+        let owned = Owned::new(&cfg);
+        let mk = |k: u64| -> (u8, Vec<u8>) {
+            let e = (k % 254) as u8 + 1;
+            let iid = iids[((k / 254) % ni) as usize];
+            let op = (k / (254 * ni)) as u8;
+            (e, forge_request(SRC, DST, iid, false, 0x01, &[op, e]))
+        };
+        for i in lo..hi {
+            let (_e1, p1) = mk(i / n1);
+            let (e2, p2) = mk(i % n1);
+            let ctx = owned.ctx();
+            let mut resp = [0u8; 64];
+            let _ = subject::process(&ctx, &p1, &mut resp);
+            let mut resp2 = [0u8; 64];
+            let out = subject::process(&ctx, &p2, &mut resp2);
+            acc.evals += 1;
+            acc.trans += 2;
+            acc.validated += 1;
+            let (a, b) = (ctx.get_request().get_eid(), ctx.get_response().get_eid());
+            let answered = out.resp_len.map(|n| n >= 14 && resp2[11] == 0 && resp2[13] == e2).unwrap_or(false);
+            if (a, b) != (e2, e2) || !answered {
+                acc.violation(2, "assignment-pair", format!("after {} then {}: EID cells {:#04x}/{:#04x}, second response {}; the last accepted assignment carried {:#04x}", hex(&p1), hex(&p2), a, b, hex(&resp2[..out.resp_len.unwrap_or(0).min(64)]), e2), || {
+                    json!({"prop": "C13", "check": "history", "cfg": cfg, "init": [], "history": [Event::Process(p1.clone()), Event::Process(p2.clone())]})
+                });
+            }
+        }
+        acc.outcome2("assignment-pairs-iid", "visited");
+    });
+}
+
+/// The SMBus header bytes 0 and 3 (all 65 536 combinations) of an assigning and
+/// a reading request, on contexts whose assigned EID collides with the request's
+/// source EID / whose address collides with the header: the property's
+/// "nothing else" includes the bytes the decoder is documented to ignore.
+fn c13_smbus_header_collisions(run: &mut Run) {
+    let cfg = Cfg::simple(DST);
+    let specs = vec![
+        CtxSpec::fresh(cfg.clone()),
+        CtxSpec { cfg: cfg.clone(), history: vec![Event::Process(set_eid_req(0x7E, DST, 1, SRC))] },
+        CtxSpec { cfg: cfg.clone(), history: vec![Event::SetEidReq(DST), Event::SetEidResp(DST)] },
+    ];
+    let bases = [forge_request(SRC, DST, 0, false, 0x01, &[0, 0x44]), forge_request(SRC, DST, 0, false, 0x02, &[]), forge_request(DST, DST, 0, false, 0x01, &[1, 0x45])];
+    run.sweep("SMBus header bytes 0 x 3 (65 536) x 3 requests x 3 contexts (assigned EID = source EID, = own address), processed", 65536 * 3 * 3, |acc, i| {
+        let mut ix = Ix(i);
+        let b3 = ix.take(256) as u8;
+        let b0 = ix.take(256) as u8;
+        let mut p = bases[ix.take(3) as usize].clone();
+        let spec = &specs[ix.take(3) as usize];
+        p[0] = b0;
+        p[3] = b3;
+        fix_pec(&mut p);
+        let m = Machine { cfg: spec.cfg.clone(), init: spec.history.clone(), alphabet: vec![Event::Process(p)] };
+        let owned = Owned::new(&spec.cfg);
+        let node = m.eval(&owned, &probes(&spec.cfg), &[0]);
+        acc.evals += 1;
+        acc.trans += node.calls;
+        acc.validated += 1;
+        if i % 13 == 0 {
+            acc.state(node.key);
+        }
+        let h = m.history(&[0]);
+        for df in node.diffs.iter().filter(|df| c13_filter(df, &h)) {
+            acc.violation(3, "smbus-header", df.text.clone(), || json!({"prop": "C13", "check": "history", "cfg": m.cfg, "init": m.init, "history": h}));
+        }
+    });
 }
 
 fn c13_deviation_inputs(run: &mut Run) {
@@ -420,6 +557,7 @@ pub fn run_c15(run: &mut Run) {
         }
     }
     stateless(run, "C15", "MIXSEQ (every kind of call on one context)", &mixed_machine(), if thorough { 5 } else { 4 }, &c15_filter);
+    pairseq_requests(run, "C15", &pair_cfg(), &c15_filter);
     // message-type lists: every length x lanes
     let total: u64 = (0..=30u64).map(|l| 256 * l.max(1) * 3).sum();
     run.sweep("message-type lists of every length 0..=30 x lanes x 3 backgrounds", total, |acc, i| {
@@ -686,6 +824,48 @@ pub fn run_c14(run: &mut Run) {
         }
     });
     stateless(run, "C14", "MIXSEQ (every kind of call on one context)", &mixed_machine(), if run.tier.thorough() { 5 } else { 4 }, &c14_filter);
+    pairseq_requests(run, "C14", &Cfg { addr: DST, msg_types: vec![0x7E], vendors: vec![(0, 0x1414, 4), (1, 0xDEADBEEF, 9), (0, 0x8086, 0), (1, 0x137, 0xFFFF)] }, &c14_filter);
+    // a response buffer of exactly the size of the answer (19 bytes for a PCI set, 21 for an IANA set),
+    // after every other selector was queried first: every mix for n = 2..=5
+    {
+        let tight: Vec<&Cfg> = cfgs.iter().filter(|c| (2..=5).contains(&c.vendors.len())).collect();
+        let toffs: Vec<u64> = {
+            let mut o = vec![0u64];
+            for c in &tight {
+                let n = c.vendors.len() as u64;
+                o.push(o.last().unwrap() + n * n);
+            }
+            o
+        };
+        run.sweep("every ordered pair of selectors, the second answered into a buffer of exactly the answer's size (n = 2..=5, every format mix)", *toffs.last().unwrap(), |acc, i| {
+            let k = match toffs.binary_search(&i) {
+                Ok(k) => k,
+                Err(k) => k - 1,
+            };
+            let cfg = tight[k];
+            let n = cfg.vendors.len() as u64;
+            let r = i - toffs[k];
+            let (s1, s2) = ((r / n) as u8, (r % n) as u8);
+            let owned = Owned::new(cfg);
+            let ctx = owned.ctx();
+            let mut big = [0u8; 64];
+            let _ = subject::process(&ctx, &forge_request(SRC, DST, 0, false, 0x06, &[s1]), &mut big);
+            let p2 = forge_request(SRC, DST, 0, false, 0x06, &[s2]);
+            let mut refe = RefEndpoint::new(cfg);
+            let (_, rexp) = refe.process(&p2);
+            let RespExp::Bytes { bytes, .. } = rexp else { return };
+            let mut exact = vec![0xA5u8; bytes.len()];
+            let out = subject::process(&ctx, &p2, &mut exact);
+            acc.evals += 1;
+            acc.trans += 2;
+            acc.validated += 1;
+            acc.nontrivial(Fnv::default().u64(0x14E).u64(i).finish());
+            let bad = compare_response(&RespExp::Bytes { bytes: bytes.clone(), body_claimed: true }, out.resp_len, out.resp_len.unwrap_or(0), &exact, true);
+            if let Some(d) = bad.or_else(|| out.dec.is_panic().then(|| format!("{:?}", out.dec))) {
+                acc.violation(2, "tight-buffer", format!("selector {} then selector {} answered into a {}-byte buffer: {} ({:?})", s1, s2, bytes.len(), d, out.dec), || json!({"prop": "C14", "check": "tight", "cfg": cfg, "first": s1, "second": s2}));
+            }
+        });
+    }
     // (c) value breadth on n in {1, 2}
     run.sweep("value breadth: all 65 536 PCI ids, IANA lanes x 4 backgrounds, all 65 536 numeric values, n in {1,2}", (65536 + 256 * 4 * 4 + 65536) * 2, |acc, i| {
         let two = i % 2 == 1;
@@ -715,7 +895,27 @@ pub fn run_c14(run: &mut Run) {
     });
 }
 
+fn replay_tight(case: &Value) -> Result<ReplayOut, String> {
+    let cfg: Cfg = get_de(case, "cfg")?;
+    let (s1, s2) = (get_u64(case, "first")? as u8, get_u64(case, "second")? as u8);
+    let owned = Owned::new(&cfg);
+    let ctx = owned.ctx();
+    let mut big = [0u8; 64];
+    let _ = subject::process(&ctx, &forge_request(SRC, DST, 0, false, 0x06, &[s1]), &mut big);
+    let p2 = forge_request(SRC, DST, 0, false, 0x06, &[s2]);
+    let mut refe = RefEndpoint::new(&cfg);
+    let (_, rexp) = refe.process(&p2);
+    let RespExp::Bytes { bytes, .. } = rexp else { return Err("selector out of range".into()) };
+    let mut exact = vec![0xA5u8; bytes.len()];
+    let out = subject::process(&ctx, &p2, &mut exact);
+    let bad = compare_response(&RespExp::Bytes { bytes, body_claimed: true }, out.resp_len, out.resp_len.unwrap_or(0), &exact, true);
+    Ok(ReplayOut { violations: bad.into_iter().collect(), observed: format!("{:?} {}", out, hex(&exact)) })
+}
+
 pub fn replay_c14(case: &Value) -> Result<ReplayOut, String> {
+    if get_str(case, "check")? == "tight" {
+        return replay_tight(case);
+    }
     if get_str(case, "check")? == "walk" {
         let cfg: Cfg = get_de(case, "cfg")?;
         let (visited, err, _) = walk(&cfg);
@@ -938,9 +1138,12 @@ pub fn run_c12(run: &mut Run) {
         one12(acc, &spec12(responder, s), &pkt, i);
     });
     c12_histories(run);
+    c12_list_lengths(run);
+    c12_set_eid_pairs(run);
     // cross-kind histories: the response produced at the last step must be the reference's
     // (framing, addressing, command code; the instance id is K-C12-IID's business)
     stateless(run, "C12", "MIXSEQ (every kind of call on one context)", &mixed_machine(), if thorough { 4 } else { 3 }, &|d: &Diff, _h: &[Event]| matches!(d.aspect, Aspect::Resp(_)));
+    pairseq_requests(run, "C12", &pair_cfg(), &|d: &Diff, _h: &[Event]| matches!(d.aspect, Aspect::Resp(_)));
     // (c) parameter breadth
     run.sweep("Set EID (3 operations) x EID 0x01..=0xFE; version query 0..=255; every selector < n for n in {1,2,16}; x 3 states x 3 address pairs", (3 * 254 + 256 + 19) * 3 * 3, |acc, i| {
         let mut ix = Ix(i);
@@ -959,6 +1162,75 @@ pub fn run_c12(run: &mut Run) {
         };
         let pkt = forge_request(requester, responder, 0, false, cmd, &data);
         one12(acc, &spec, &pkt, i);
+    });
+}
+
+/// Every message-type list length 0..=30 x every ordered pair of the 8 answerable
+/// requests x neighbouring requesters (same, +1, -1, a distant one): response
+/// sizes and addresses that alias under narrow arithmetic only meet here.
+fn c12_list_lengths(run: &mut Run) {
+    let responder = 0x23u8;
+    run.sweep("message-type list length 0..=30 x ordered pairs of 8 requests x 4 requester pairs; last response judged", 31 * 64 * 4, |acc, k| {
+        let mut ix = Ix(k);
+        let n = ix.take(31) as usize;
+        let k1 = ix.take(8);
+        let k2 = ix.take(8);
+        let (ra, rb) = [(0x34u8, 0x34u8), (0x34, 0x35), (0x35, 0x34), (0x34, 0x10)][ix.take(4) as usize];
+        let cfg = Cfg { addr: responder, msg_types: (0..n).map(|i| 0x60 + i as u8).collect(), vendors: vec![(0, 0x1414, 4), (1, 0xDEADBEEF, 9)] };
+        let mk = |kk: u64, rq: u8| {
+            let (cmd, data) = answerable(kk, if kk == 5 { 0xFF } else if kk == 7 { 0 } else { 0x40 + kk as u8 });
+            forge_request(rq, responder, 0, false, cmd, &data)
+        };
+        let spec = CtxSpec { cfg, history: vec![Event::Process(mk(k1, ra))] };
+        one12(acc, &spec, &mk(k2, rb), k);
+    });
+}
+
+/// Ordered pairs of Set Endpoint ID requests over requesters x EIDs: the first
+/// decoded or processed, the second processed and its response judged (a
+/// "same request" memo keyed on anything narrower than the bytes would answer
+/// the wrong requester).  Quick: 16 requesters; thorough: all 128.
+fn c12_set_eid_pairs(run: &mut Run) {
+    let reqs: Vec<u8> = if run.tier.thorough() { (0..128).collect() } else { (0x30..0x40).collect() };
+    let nr = reqs.len() as u64;
+    let n1 = nr * 254;
+    let responder = 0x23u8;
+    let cfg = Cfg::simple(responder);
+    run.sweep_chunked(&format!("ordered pairs of Set Endpoint ID requests over {} requesters x EIDs 0x01..=0xFE, first decoded/processed, second processed (addressing and EID of the answer)", nr), n1 * n1 * 2, |acc, lo, hi| {
+        let owned = Owned::new(&cfg);
+        let mk = |k: u64| -> (u8, u8, Vec<u8>) {
+            let e = (k % 254) as u8 + 1;
+            let r = reqs[(k / 254) as usize];
+            (r, e, forge_request(r, responder, 0, false, 0x01, &[0, e]))
+        };
+        for i in lo..hi {
+            let mode = i % 2;
+            let j = i / 2;
+            let (_r1, _e1, p1) = mk(j / n1);
+            let (r2, e2, p2) = mk(j % n1);
+            let ctx = owned.ctx();
+            if mode == 0 {
+                let _ = subject::decode(&ctx, &p1);
+            } else {
+                let mut r = [0u8; 64];
+                let _ = subject::process(&ctx, &p1, &mut r);
+            }
+            let mut resp = [0u8; 64];
+            let out = subject::process(&ctx, &p2, &mut resp);
+            acc.evals += 1;
+            acc.trans += 2;
+            acc.validated += 1;
+            let ok = match out.resp_len {
+                Some(n) if n == 16 => resp[0] == r2 << 1 && resp[5] == r2 && resp[3] == (responder << 1) | 1 && resp[10] == 0x01 && resp[11] == 0 && resp[13] == e2 && crc8(&resp[..16]) == 0,
+                _ => false,
+            };
+            if !ok {
+                let hist = vec![if mode == 0 { Event::Decode(p1.clone()) } else { Event::Process(p1.clone()) }];
+                let spec = CtxSpec { cfg: cfg.clone(), history: hist };
+                acc.violation(2, "response", format!("after {} the request {} from {:#04x} assigning {:#04x} was answered with {}", hex(&p1), hex(&p2), r2, e2, hex(&resp[..out.resp_len.unwrap_or(0).min(64)])), || json!({"prop": "C12", "check": "response", "spec": spec, "request": hex(&p2)}));
+            }
+        }
+        acc.outcome2("set-eid-pairs", "visited");
     });
 }
 
